@@ -159,7 +159,8 @@ func (c *Check) edgeDedupByPair() {
 	if f == nil {
 		return
 	}
-	for _, b := range f.Blocks {
+	// the per-sample body may be newGraph itself or a helper/method it calls
+	for _, b := range helperBlocks(f, 2) {
 		for _, ins := range b.Instrs {
 			call, ok := ins.(*ssa.Call)
 			if !ok || call.Call.StaticCallee() == nil || call.Call.StaticCallee().Name() != "AddToEdgeDiv" {
@@ -167,16 +168,13 @@ func (c *Check) edgeDedupByPair() {
 			}
 			parent, child := call.Call.Args[0], call.Call.Args[1]
 			found := false
-			for _, b2 := range f.Blocks {
+			for _, b2 := range b.Parent().Blocks {
 				if !b2.Dominates(b) {
 					continue
 				}
 				for _, i2 := range b2.Instrs {
 					lk, ok := i2.(*ssa.Lookup)
-					if !ok {
-						continue
-					}
-					if _, isMk := lk.X.(*ssa.MakeMap); !isMk {
+					if !ok || !isSetMap(lk.X) {
 						continue
 					}
 					hasP, hasC := false, false
@@ -232,15 +230,60 @@ func (c *Check) totalAndDivisorTogether() {
 		return
 	}
 	var quo *ssa.BinOp
-	for _, b := range f.Blocks {
+	for _, b := range helperBlocks(f, 2) {
 		for _, ins := range b.Instrs {
-			if q, ok := ins.(*ssa.BinOp); ok && q.Op == token.QUO {
+			if q, ok := ins.(*ssa.BinOp); ok && q.Op == token.QUO && (quo == nil || b.Parent() == f) {
 				quo = q
 			}
 		}
 	}
 	if quo == nil {
 		c.undecided("C04-R6", "total/div", p.relFile(f.Pos()), "no quotient found in computeTotal")
+		return
+	}
+	// sum and count kept as two fields of one accumulator object: they are selected together by
+	// construction when the quotient reads both from the same object, and they cover the same
+	// samples when every function that adds to one field adds to the other in the same block
+	if T, fx, fy, ok := fieldPairOfOneObject(quo.X, quo.Y); ok {
+		bad := ""
+		type pos struct {
+			fn *ssa.Function
+			b  *ssa.BasicBlock
+		}
+		adds := map[string]map[pos]bool{fx: {}, fy: {}}
+		for _, b := range helperBlocks(f, 2) {
+			for _, ins := range b.Instrs {
+				st, ok := ins.(*ssa.Store)
+				if !ok {
+					continue
+				}
+				fa, ok := st.Addr.(*ssa.FieldAddr)
+				if !ok {
+					continue
+				}
+				if t, F := fieldOf(fa.X.Type(), fa.Field); t == T && (F == fx || F == fy) {
+					adds[F][pos{b.Parent(), b}] = true
+				}
+			}
+		}
+		for k := range adds[fx] {
+			if !adds[fy][k] {
+				bad = "the sum field " + T + "." + fx + " is updated in " + fnName(k.fn) + " where the count field " + fy + " is not"
+			}
+		}
+		for k := range adds[fy] {
+			if !adds[fx][k] {
+				bad = "the count field " + T + "." + fy + " is updated in " + fnName(k.fn) + " where the sum field " + fx + " is not"
+			}
+		}
+		if len(adds[fx]) == 0 {
+			bad = "no update of " + T + "." + fx + " found"
+		}
+		if bad == "" {
+			c.ok("C04-R6", "total/div", p.relFile(quo.Pos()), "the mean total divides each sum by the counts of the same samples", "sum and count are the two fields of one "+T+" object, read together by the quotient and always updated together")
+		} else {
+			c.bad("C04-R6", "total/div", p.relFile(quo.Pos()), "computeTotal: "+bad+": with the mean option a diff-base report divides the base samples' sum by the count of other samples")
+		}
 		return
 	}
 	blocksOf := func(v ssa.Value) map[*ssa.BasicBlock]bool {
@@ -422,29 +465,36 @@ func (c *Check) seenSetKeys() {
 		return
 	}
 	n := 0
-	for _, b := range f.Blocks {
+	// the per-sample body: the function (newGraph or a helper/method it calls) that holds
+	// the accumulating calls
+	var body []*ssa.BasicBlock
+	for _, g := range withHelpers(f, 2) {
+		has := false
+		for _, b := range g.Blocks {
+			for _, ins := range b.Instrs {
+				if call, ok := ins.(*ssa.Call); ok && call.Call.StaticCallee() != nil && call.Call.StaticCallee().Name() == "AddToEdgeDiv" {
+					has = true
+				}
+			}
+		}
+		if has {
+			body = append(body, g.Blocks...)
+		}
+	}
+	for _, b := range body {
 		for _, ins := range b.Instrs {
 			mu, ok := ins.(*ssa.MapUpdate)
-			if !ok {
+			if !ok || !isSetMap(mu.Map) {
 				continue
 			}
-			mt, ok := mu.Map.Type().Underlying().(*types.Map)
-			if !ok {
-				continue
-			}
-			if bt, ok := mt.Elem().Underlying().(*types.Basic); !ok || bt.Kind() != types.Bool {
-				continue
-			}
-			if _, isMk := mu.Map.(*ssa.MakeMap); !isMk {
-				continue
-			}
+			mt := mu.Map.Type().Underlying().(*types.Map)
 			n++
 			key := "seen-set:" + typeShort(mt.Key())
 			// the guarding lookup: a Lookup on the same map in a block that dominates the update
 			var guard *ssa.Lookup
-			for _, b2 := range f.Blocks {
+			for _, b2 := range b.Parent().Blocks {
 				for _, i2 := range b2.Instrs {
-					if lk, ok := i2.(*ssa.Lookup); ok && lk.X == mu.Map && (b2 == b && instrIndex(lk) < instrIndex(mu) || b2 != b && b2.Dominates(b)) {
+					if lk, ok := i2.(*ssa.Lookup); ok && sameMapRef(lk.X, mu.Map) && (b2 == b && instrIndex(lk) < instrIndex(mu) || b2 != b && b2.Dominates(b)) {
 						guard = lk
 					}
 				}
@@ -470,16 +520,9 @@ func (c *Check) seenSetKeys() {
 // the loop header without reaching the frame loop that accumulates value and divisor.
 func (c *Check) meanDivisorNeverSkipped() {
 	p := c.P
-	for _, name := range []string{"newGraph", "newTree"} {
-		f := c.anchorFn("C04-R4", "internal/graph", name)
-		if f == nil {
-			continue
-		}
-		key := "mean-divisor:" + name
-		// accumulating calls and the divisor value
-		var acc []*ssa.Call
-		var dw ssa.Value
-		for _, b := range f.Blocks {
+	// accCalls: the accumulating calls of g and the divisor value they receive
+	accCalls := func(g *ssa.Function) (acc []*ssa.Call, dw ssa.Value, mixed token.Pos) {
+		for _, b := range g.Blocks {
 			for _, ins := range b.Instrs {
 				call, ok := ins.(*ssa.Call)
 				if !ok || call.Call.StaticCallee() == nil {
@@ -495,61 +538,45 @@ func (c *Check) meanDivisorNeverSkipped() {
 					if dw == nil {
 						dw = call.Call.Args[idx]
 					} else if dw != call.Call.Args[idx] {
-						c.bad("C04-R4", key, p.relFile(call.Pos()), name+" passes different divisor values to its accumulating calls")
+						mixed = call.Pos()
 						dw = call.Call.Args[idx]
 					}
 				}
 			}
 		}
-		if len(acc) < 2 || dw == nil {
-			c.undecided("C04-R4", key, p.relFile(f.Pos()), "accumulating calls (addSample, AddToEdgeDiv) not found in "+name)
-			continue
-		}
-		// sample loop header: outermost loop header dominating all accumulating calls
-		isHeader := func(d *ssa.BasicBlock) bool {
-			for _, pred := range d.Preds {
-				if d.Dominates(pred) {
-					return true
-				}
-			}
-			return false
-		}
-		var chain []*ssa.BasicBlock // loop headers dominating acc[0], innermost first
-		for d := acc[0].Block(); d != nil; d = d.Idom() {
-			if isHeader(d) {
-				chain = append(chain, d)
+		return
+	}
+	isHeader := func(d *ssa.BasicBlock) bool {
+		for _, pred := range d.Preds {
+			if d.Dominates(pred) {
+				return true
 			}
 		}
-		var hdr, frames *ssa.BasicBlock
-		for i := len(chain) - 1; i >= 0 && hdr == nil; i-- {
+		return false
+	}
+	// loopsAround: the loop headers around blocks[0], outermost first, that dominate every one
+	// of the blocks (the first block must lie inside each loop; the others may follow it)
+	loopsAround := func(blocks []*ssa.BasicBlock) []*ssa.BasicBlock {
+		var chain []*ssa.BasicBlock
+		for d := blocks[0]; d != nil; d = d.Idom() {
+			if !isHeader(d) || !naturalLoop(d)[blocks[0]] {
+				continue
+			}
 			all := true
-			for _, a := range acc {
-				if !chain[i].Dominates(a.Block()) || !naturalLoop(chain[i])[a.Block()] {
+			for _, b := range blocks {
+				if !d.Dominates(b) {
 					all = false
 				}
 			}
 			if all {
-				hdr = chain[i]
-				if i > 0 {
-					frames = chain[i-1]
-				}
+				chain = append([]*ssa.BasicBlock{d}, chain...)
 			}
 		}
-		if hdr == nil || frames == nil {
-			c.undecided("C04-R4", key, p.relFile(f.Pos()), "sample loop / frame loop of "+name+" not recognised")
-			continue
-		}
-		for _, a := range acc {
-			if !frames.Dominates(a.Block()) {
-				frames = nil
-				break
-			}
-		}
-		if frames == nil {
-			c.undecided("C04-R4", key, p.relFile(f.Pos()), "the frame loop of "+name+" does not dominate all accumulating calls")
-			continue
-		}
-		loop := naturalLoop(hdr)
+		return chain
+	}
+	// avoids: assuming dw != 0, a path from `from` reaches `until` (or leaves through a
+	// return when until == nil) without entering the block `target`
+	avoids := func(dw ssa.Value, starts []*ssa.BasicBlock, target, until *ssa.BasicBlock, within map[*ssa.BasicBlock]bool) *ssa.BasicBlock {
 		assume := func(cond ssa.Value) int {
 			cmp, ok := cond.(*ssa.BinOp)
 			if !ok {
@@ -574,23 +601,27 @@ func (c *Check) meanDivisorNeverSkipped() {
 			}
 			return 0
 		}
-		skipped := false
 		var skipAt *ssa.BasicBlock
 		seen := map[*ssa.BasicBlock]bool{}
 		var walk func(b, from *ssa.BasicBlock)
 		walk = func(b, from *ssa.BasicBlock) {
-			if skipped || b == frames || seen[b] {
+			if skipAt != nil || b == target || seen[b] {
 				return
 			}
-			if b == hdr {
-				skipped = true
+			if until != nil && b == until {
 				skipAt = from
 				return
 			}
-			if !loop[b] {
+			if within != nil && !within[b] {
 				return // leaves the loop (return): not a skipped sample
 			}
 			seen[b] = true
+			if until == nil {
+				if _, isRet := b.Instrs[len(b.Instrs)-1].(*ssa.Return); isRet {
+					skipAt = b
+					return
+				}
+			}
 			succs := b.Succs
 			if iff, ok := b.Instrs[len(b.Instrs)-1].(*ssa.If); ok {
 				switch assume(iff.Cond) {
@@ -604,25 +635,112 @@ func (c *Check) meanDivisorNeverSkipped() {
 				walk(sc, b)
 			}
 		}
-		for _, sc := range hdr.Succs {
-			if loop[sc] {
-				walk(sc, hdr)
+		for _, sc := range starts {
+			walk(sc, nil)
+		}
+		return skipAt
+	}
+	for _, name := range []string{"newGraph", "newTree"} {
+		f := c.anchorFn("C04-R4", "internal/graph", name)
+		if f == nil {
+			continue
+		}
+		key := "mean-divisor:" + name
+		acc, dw, mixed := accCalls(f)
+		var helper *ssa.Function // the per-sample helper that holds the accumulating calls, if any
+		var site *ssa.Call
+		if len(acc) < 2 {
+			// the per-sample body may be a helper (or method) called from the sample loop
+			for _, es := range effectiveSites(f, func(ins ssa.Instruction) bool {
+				call, ok := ins.(*ssa.Call)
+				return ok && call.Call.StaticCallee() != nil && (call.Call.StaticCallee().Name() == "addSample" || call.Call.StaticCallee().Name() == "AddToEdgeDiv")
+			}, 2) {
+				if es.via != nil {
+					if call, ok := es.at.(*ssa.Call); ok {
+						site, helper = call, es.via
+					}
+				}
+			}
+			if helper != nil {
+				acc, dw, mixed = accCalls(helper)
 			}
 		}
-		if skipped {
+		if mixed != token.NoPos {
+			c.bad("C04-R4", key, p.relFile(mixed), name+" passes different divisor values to its accumulating calls")
+		}
+		if len(acc) < 2 || dw == nil {
+			c.undecided("C04-R4", key, p.relFile(f.Pos()), "accumulating calls (addSample, AddToEdgeDiv) not found in "+name)
+			continue
+		}
+		var accBlocks []*ssa.BasicBlock
+		for _, a := range acc {
+			accBlocks = append(accBlocks, a.Block())
+		}
+		var skipAt *ssa.BasicBlock
+		var framesPos token.Pos
+		if helper == nil {
+			chain := loopsAround(accBlocks)
+			if len(chain) < 2 {
+				c.undecided("C04-R4", key, p.relFile(f.Pos()), "sample loop / frame loop of "+name+" not recognised")
+				continue
+			}
+			hdr, frames := chain[0], chain[1]
+			loop := naturalLoop(hdr)
+			var starts []*ssa.BasicBlock
+			for _, sc := range hdr.Succs {
+				if loop[sc] {
+					starts = append(starts, sc)
+				}
+			}
+			skipAt = avoids(dw, starts, frames, hdr, loop)
+			framesPos = frames.Instrs[0].Pos()
+		} else {
+			// stage A: in the sample loop of f, the call of the helper is reached whenever the
+			// divisor argument is non-zero; stage B: in the helper, the frame loop is reached
+			// whenever the divisor parameter is non-zero
+			par, ok := dw.(*ssa.Parameter)
+			k := -1
+			if ok {
+				for i, q := range helper.Params {
+					if q == par {
+						k = i
+					}
+				}
+			}
+			outer := loopsAround([]*ssa.BasicBlock{site.Block()})
+			inner := loopsAround(accBlocks)
+			if k < 0 || k >= len(site.Call.Args) || len(outer) < 1 || len(inner) < 1 {
+				c.undecided("C04-R4", key, p.relFile(f.Pos()), "sample loop / frame loop of "+name+" not recognised (per-sample helper "+fnName(helper)+")")
+				continue
+			}
+			hdr := outer[0]
+			loop := naturalLoop(hdr)
+			var starts []*ssa.BasicBlock
+			for _, sc := range hdr.Succs {
+				if loop[sc] {
+					starts = append(starts, sc)
+				}
+			}
+			skipAt = avoids(site.Call.Args[k], starts, site.Block(), hdr, loop)
+			if skipAt == nil {
+				skipAt = avoids(dw, []*ssa.BasicBlock{helper.Blocks[0]}, inner[0], nil, nil)
+			}
+			framesPos = inner[0].Instrs[0].Pos()
+		}
+		if skipAt != nil {
 			pos := p.relFile(f.Pos())
-			if skipAt != nil && len(skipAt.Instrs) > 0 {
-				pos = p.relFile(skipAt.Instrs[len(skipAt.Instrs)-1].Pos())
-				if pos == "?" {
-					pos = p.relFile(f.Pos())
+			if len(skipAt.Instrs) > 0 {
+				if q := p.relFile(skipAt.Instrs[len(skipAt.Instrs)-1].Pos()); q != "?" {
+					pos = q
 				}
 			}
 			c.bad("C04-R4", key, pos, name+" can skip a sample whose mean divisor is non-zero (a path through one iteration avoids the frame loop although the divisor value is not zero): with the mean option that sample's count is missing from FlatDiv/CumDiv/WeightDiv and the means come out too large")
 		} else {
-			c.ok("C04-R4", key, p.relFile(frames.Instrs[0].Pos()), name+" skips a sample only when its divisor contribution is zero too", "assuming the divisor non-zero, every path through one iteration of the sample loop reaches the frame loop")
+			c.ok("C04-R4", key, p.relFile(framesPos), name+" skips a sample only when its divisor contribution is zero too", "assuming the divisor non-zero, every path through one iteration of the sample loop reaches the frame loop")
 		}
 	}
 }
+
 
 // diffBaseProtocol: the label that marks base samples is written, tested and removed with
 // one key and value; it is removed only by the report's graph construction (after the total
@@ -705,4 +823,73 @@ func (c *Check) diffBaseProtocol(rule string) {
 			c.bad(rule, "diffbase:new", p.relFile(nw.Pos()), "report.New removes the diff-base label ("+bad+"): the proto output and every later report built on the same profile lose the base marking, so totals and percentages of a diff are no longer relative to the base")
 		}
 	}
+}
+
+// isSetMap: v is a map used as a set (element type bool or struct{}) that the function made
+// itself or keeps in a field of its receiver/accumulator.
+func isSetMap(v ssa.Value) bool {
+	mt, ok := v.Type().Underlying().(*types.Map)
+	if !ok {
+		return false
+	}
+	switch et := mt.Elem().Underlying().(type) {
+	case *types.Basic:
+		if et.Kind() != types.Bool {
+			return false
+		}
+	case *types.Struct:
+		if et.NumFields() != 0 {
+			return false
+		}
+	default:
+		return false
+	}
+	switch x := v.(type) {
+	case *ssa.MakeMap:
+		return true
+	case *ssa.UnOp:
+		_, isField := x.X.(*ssa.FieldAddr)
+		return x.Op == token.MUL && isField
+	}
+	return false
+}
+
+// sameMapRef: both values denote the same map: one SSA value, or loads of the same field of
+// the same object.
+func sameMapRef(a, b ssa.Value) bool {
+	if a == b {
+		return true
+	}
+	la, ok1 := a.(*ssa.UnOp)
+	lb, ok2 := b.(*ssa.UnOp)
+	if !ok1 || !ok2 {
+		return false
+	}
+	fa, ok1 := la.X.(*ssa.FieldAddr)
+	fb, ok2 := lb.X.(*ssa.FieldAddr)
+	return ok1 && ok2 && fa.X == fb.X && fa.Field == fb.Field
+}
+
+// fieldPairOfOneObject: x and y are reads of two different fields of the same struct object
+// (fields of one struct value, or loads through one pointer).
+func fieldPairOfOneObject(x, y ssa.Value) (T, fx, fy string, ok bool) {
+	base := func(v ssa.Value) (ssa.Value, string, string) {
+		switch t := v.(type) {
+		case *ssa.Field:
+			T, F := fieldOf(t.X.Type(), t.Field)
+			return t.X, T, F
+		case *ssa.UnOp:
+			if fa, ok := t.X.(*ssa.FieldAddr); ok && t.Op == token.MUL {
+				T, F := fieldOf(fa.X.Type(), fa.Field)
+				return fa.X, T, F
+			}
+		}
+		return nil, "", ""
+	}
+	bx, tx, nx := base(x)
+	by, ty, ny := base(y)
+	if bx == nil || by == nil || bx != by || tx != ty || nx == ny {
+		return "", "", "", false
+	}
+	return tx, nx, ny, true
 }
